@@ -507,6 +507,8 @@ structure SEv where
   stmt : Stmt
   cf   : Bool := false      -- the statement's own compilation fails
   bf   : Bool := false      -- the backend fails executing the compiled unit
+  stay : Bool := false      -- … and is still inside the transaction block afterwards (read for a
+                            --   failing COMMIT only: `be_conn.in_tx()` in `execute()`'s handler)
   t0   : Nat := 0           -- `time.monotonic_ns()` should a fresh compiler state be created
 deriving DecidableEq, Repr
 
@@ -545,12 +547,12 @@ def Server.onSuccess (s : Server) (u : QUnit) : Server :=
   else s2
 
 /-- `execute()` for one unit (not the `_execute_rollback` path). -/
-def Server.execute (s : Server) (u : QUnit) (bf : Bool) : Server × Outcome :=
+def Server.execute (s : Server) (u : QUnit) (bf stay : Bool) : Server × Outcome :=
   let s1 := s.start u
   if bf then
-    -- `on_error()`; a failed COMMIT leaves the backend outside a transaction: `abort_tx()`
+    -- `on_error()`; `if query_unit.tx_commit and not be_conn.in_tx() and dbv.in_tx(): abort_tx()`
     let s2 := if s1.inTx then { s1 with txErr := true } else s1
-    (if u.txCommit && s2.inTx then s2.resetTx else s2, .failed)
+    (if u.txCommit && !stay && s2.inTx then s2.resetTx else s2, .failed)
   else
     let s2 := if u.spDeclare then
         match u.spName, u.spId with
@@ -561,7 +563,7 @@ def Server.execute (s : Server) (u : QUnit) (bf : Bool) : Server × Outcome :=
     (s3.onSuccess u, .ok)
 
 /-- After a successful compile: `_check_in_tx_error`, then `_execute_rollback` or `execute`. -/
-def Server.run (s : Server) (u : QUnit) (bf : Bool) : Server × Outcome :=
+def Server.run (s : Server) (u : QUnit) (bf stay : Bool) : Server × Outcome :=
   if s.txErr && !(u.txRollback || u.spRollback) then (s, .rejected .inTxError)
   else if s.txErr || u.spRollback then
     -- `_execute_rollback` (a backend failure here is outside the model)
@@ -573,7 +575,7 @@ def Server.run (s : Server) (u : QUnit) (bf : Bool) : Server × Outcome :=
         -- `_tx_error = False` was set first, the message loop's handler sets it again
         ({ s with sps := [], txErr := s.inTx }, .rejected .dangling)
     else (s.resetTx, .ok)
-  else s.execute u bf
+  else s.execute u bf stay
 
 /-- `parse()`: in an aborted block every `EdgeDBError` of the compiler other than a syntax
     error / `InternalServerError` is replaced by the "current transaction is aborted" error. -/
@@ -615,7 +617,7 @@ def Server.stepOn (s : Server) (cin : Option ConState) (e : SEv) : StepRes :=
   | .ok u =>
     let keep : Option ConState :=
       if s.inTx then some r.st else if u.txId.isSome then some r.st else none
-    let (s', o) := ({ s with last := keep } : Server).run u e.bf
+    let (s', o) := ({ s with last := keep } : Server).run u e.bf e.stay
     { srv := s', out := { outcome := o, against := r.against, unit := some u }, st := r.st, compiled := true }
 
 /-- Pickle transport: every call works on a private unpickled copy of the bytes the server
